@@ -22,7 +22,8 @@ let seq_op t =
 let ops_of args = List.map (fun a -> seq_op (getS a)) args
 
 let show_zs l = "n=" ^ string_of_int (List.length l) ^ " [" ^ String.concat "," (List.map string_of_z l) ^ "]"
-(* physical cells shown through the mask: a cell the mask does not fix is "~" *)
+(* physical cells shown through the option-valued run: a cell it does not fix would be "~" (none since the
+   value-initialisation fix), a fixed cell that is physically indeterminate "INDET" (would contradict the theorem) *)
 let show_masked cells mask =
   let rec go cs ms = match cs, ms with
     | c :: cs', m :: ms' ->
@@ -54,8 +55,7 @@ let svec_handler args =
     spec = "A " ^ show_zs la ^ " B " ^ show_zs lb;
     dom = determinedb ma && determinedb mb }
 
-(* small_vector: no Coq state machine; reference = std::vector, mask = the vector mask (cells of a sized
-   construction / growing resize are not fixed) *)
+(* small_vector: no Coq state machine; reference = std::vector *)
 let small_handler args =
   let ops = ops_of args in
   let (ma, mb) = vmask_run ops in let (la, lb) = std_run None ops in
